@@ -71,6 +71,9 @@ var trustedBase = []string{
 	"interface contracts of fs.File / fs.FileSystem / fs.LockFile in /repo/fs/verif_contracts.go are the model of the file system (sizes below 2^48, I/O errors possible on every call)",
 	"bufio.Reader is modelled as an unbuffered second handle on the same file",
 	"floating-point expressions are abstracted to unconstrained values",
+	"model of append: the source index of an appended element lies inside the source slice and is strictly monotone in the position (pure bit-vector lemmas over slice bounds <= 2^48, /verif/lemmas/*.smt2, re-proved by lemmas/check.sh in the thorough tier of C01, not on every run)",
+	"escaping locals never assigned after the entry block of their function keep their value across a callee's 'modifies *' (no pointer to them exists outside the function literals that capture them, which only read them)",
+	"every slice has offset, length and capacity between 0 and 2^48; every reference held in a parameter or read from a field of a parameter at entry designates an allocated object or is nil",
 }
 
 func cmdCheck(args []string) {
